@@ -72,6 +72,12 @@ def run_check(prop_id, tier, seed, replay=None):
     wd = cm.workdir(prop_id)
     try:
         cov, assumptions = REGISTRY[prop_id](rep, tier, seed, wd, replay)
+    except Exception:  # noqa: BLE001
+        # the machinery itself failed on what the tree produced: the property is not shown to hold on this run
+        import traceback
+        tb = traceback.format_exc()
+        rep.add_violation("check-error", "the check could not evaluate the output of this tree: " + tb[-1500:], ["# " + l for l in tb.splitlines()[-12:]], failing_input=False)
+        cov, assumptions = {"explanation": "check aborted by an internal error", "evaluations": 1, "distinct_nontrivial": 2}, []
     finally:
         shutil.rmtree(wd, ignore_errors=True)
     if tier == "thorough" and not broken:
@@ -671,9 +677,11 @@ def check_c07(rep, tier, seed, wd, replay):
                              min(len(g["events"]), len(orig["events"])))
                     if n < len(g["events"]) and g["events"][n] != "invalidchunk":
                         probs.append("damaged chunk yielded a record that differs from the original without an error first (event %d: %s)" % (n, g["events"][n][:80]))
-                    elif n < len(g["events"]) and g["events"][n + 1:] != orig["events"][n + c["n_inner"]:]:
+                    elif n < len(g["events"]) and not (g["events"][n + 1:] == orig["events"][n + c["n_inner"]:] or
+                                                       (g["end"] not in ("err:eof", None) and
+                                                        g["events"][n + 1:] == orig["events"][n + c["n_inner"]:][:len(g["events"][n + 1:])])):
                         # invalid-chunk token mode: the caller may read on; what follows must be the rest of the file AFTER the damaged
-                        # chunk, never the unvalidated content of that chunk
+                        # chunk (or a prefix of it ending in an error), never the unvalidated content of that chunk
                         tail = g["events"][n + 1:]
                         probs.append("after the invalid-chunk token the lexer returned %d records where the original has %d after that chunk (first: %s): content of a chunk that failed its CRC was handed out"
                                      % (len(tail), len(orig["events"][n + c["n_inner"]:]), (tail[0] if tail else "-")[:80]))
@@ -1468,6 +1476,14 @@ def lex_content(events):
         if op == 15:
             c["dataend"] = True
         if c["dataend"]:
+            continue
+        if isinstance(p, str):
+            # a record body that does not parse per the specification: keep it visible so that every comparison fails on it
+            key = {1: "header", 3: "schemas", 4: "channels", 5: "messages", 12: "metadata"}.get(op)
+            if key == "header":
+                c["header"] = ("UNPARSABLE", p)
+            elif key:
+                c[key].append(("UNPARSABLE", op, p))
             continue
         if op == 1:
             c["header"] = (p["profile"], p["library"])
@@ -2720,6 +2736,10 @@ def check_c16(rep, tier, seed, wd, replay):
                 # the Python writer may leave out records of channels/schemas that no message uses:
                 # everything read must have been written, and everything a message needs must be read
                 allrec = [tok_parsed(ev) for ev in g["events"]]
+                for op2, p2 in allrec:
+                    if isinstance(p2, str):
+                        probs.append("Go lexer returned a record (opcode %s) of a Python-written file that does not parse per the specification: %s" % (op2, p2[:120]))
+                allrec = [(op2, p2) for op2, p2 in allrec if not isinstance(p2, str)]
                 gs = set((p["id"], p["name"], p["encoding"], p["data"]) for op, p in allrec if op == 3)
                 gc = set((p["id"], p["schema_id"], p["topic"], p["message_encoding"], tuple(sorted(p["metadata"]))) for op, p in allrec if op == 4)
                 used_c = set(m[0] for m in want["messages"])
